@@ -14,6 +14,7 @@ import (
 	banktypes "github.com/cosmos/cosmos-sdk/x/bank/types"
 	"github.com/ethereum/go-ethereum/common"
 	ethtypes "github.com/ethereum/go-ethereum/core/types"
+	"github.com/ethereum/go-ethereum/core/vm"
 	"github.com/ethereum/go-ethereum/crypto"
 
 	"verifharness/vh"
@@ -257,6 +258,9 @@ func validEth(w *vh.World, r *vh.RNG, s *vh.Acct) *vh.TxPlan {
 	val := big.NewInt(int64(r.Intn(1_000_000)))
 	if r.Chance(1, 8) {
 		val = new(big.Int).Add(w.C.Balance(s.Addr), big.NewInt(1)) // core error after admission
+		if r.Bool() { // the same for a contract creation: unaffordable value, admitted, must still consume the nonce exactly once
+			return w.PlanEth(s, nil, val, 200000, vh.Deployer(vh.NewAsm().Op(vm.STOP).Bytes()), "ok", nil)
+		}
 	}
 	return w.PlanEth(s, &to, val, 21000, nil, "ok", nil)
 }
